@@ -56,10 +56,68 @@ def _subst(e, env):
     return _Sub(env).visit(copy.deepcopy(e))
 
 
+class _Fold(ast.NodeTransformer):
+    """constant sub-tests produced by propagation: `False is False`, `None is not None`, and/or with a constant"""
+
+    @staticmethod
+    def _const(e):
+        if isinstance(e, ast.Constant):
+            return True, e.value
+        if isinstance(e, ast.UnaryOp) and isinstance(e.op, ast.USub) and isinstance(e.operand, ast.Constant) and isinstance(e.operand.value, (int, float)):
+            return True, -e.operand.value
+        return False, None
+
+    def visit_Compare(self, n):
+        self.generic_visit(n)
+        ka, a = self._const(n.left)
+        kb, b = self._const(n.comparators[0]) if len(n.ops) == 1 else (False, None)
+        if ka and kb and isinstance(a, (int, float)) and isinstance(b, (int, float)) and not isinstance(a, bool) and not isinstance(b, bool):
+            import operator
+
+            fn = {ast.Eq: operator.eq, ast.NotEq: operator.ne, ast.Lt: operator.lt, ast.LtE: operator.le, ast.Gt: operator.gt, ast.GtE: operator.ge}.get(type(n.ops[0]))
+            if fn is not None:
+                return ast.copy_location(ast.Constant(value=bool(fn(a, b))), n)
+        if len(n.ops) == 1 and isinstance(n.left, ast.Constant) and isinstance(n.comparators[0], ast.Constant):
+            a, b, op = n.left.value, n.comparators[0].value, n.ops[0]
+            simple = lambda v: v is None or isinstance(v, (bool, int, str))
+            if simple(a) and simple(b):
+                if isinstance(op, (ast.Is, ast.Eq)):
+                    return ast.copy_location(ast.Constant(value=(a is b) if isinstance(op, ast.Is) and (a is None or isinstance(a, bool) or b is None or isinstance(b, bool)) else a == b), n)
+                if isinstance(op, (ast.IsNot, ast.NotEq)):
+                    return ast.copy_location(ast.Constant(value=not ((a is b) if isinstance(op, ast.IsNot) and (a is None or isinstance(a, bool) or b is None or isinstance(b, bool)) else a == b)), n)
+        return n
+
+    def visit_UnaryOp(self, n):
+        self.generic_visit(n)
+        if isinstance(n.op, ast.Not) and isinstance(n.operand, ast.Constant) and (n.operand.value is None or isinstance(n.operand.value, (bool, int, str))):
+            return ast.copy_location(ast.Constant(value=not n.operand.value), n)
+        return n
+
+    def visit_BoolOp(self, n):
+        self.generic_visit(n)
+        unit = isinstance(n.op, ast.And)
+        vals = []
+        for v in n.values:
+            if isinstance(v, ast.Constant) and isinstance(v.value, bool):
+                if v.value is unit:
+                    continue
+                return ast.copy_location(ast.Constant(value=not unit), n)
+            vals.append(v)
+        if not vals:
+            return ast.copy_location(ast.Constant(value=unit), n)
+        if len(vals) == 1:
+            return vals[0]
+        n.values = vals
+        return n
+
+
 def _fact_texts(test, label):
     e = copy.deepcopy(test)
     if label == "false":
         e = ExprCanon().visit(ast.fix_missing_locations(ast.Expression(body=negate(e)))).body
+    e = _Fold().visit(e)
+    if isinstance(e, ast.Constant) and (e.value is None or isinstance(e.value, (bool, int, str))):
+        return [] if e.value else ["<infeasible>"]
     out = []
     todo = [e]
     while todo:
@@ -136,6 +194,9 @@ def summaries(cfg, max_paths=400, max_expr=600):
             if n.kind == "test" and lab in ("true", "false"):
                 labs = {l for (mm, l) in n.succ if mm is m}
                 if len(labs) == 1:
-                    f2 = facts | frozenset(_fact_texts(_subst(n.ast, env2), lab))
+                    ft = _fact_texts(_subst(n.ast, env2), lab)
+                    if "<infeasible>" in ft:
+                        continue
+                    f2 = facts | frozenset(ft)
             stack.append((m, env2, f2, c2, calls2))
     return out
